@@ -112,13 +112,14 @@ func (th *Thread) top() *frame {
 // ---- frames & calls ---------------------------------------------------------------------------
 
 func (w *World) pushFrame(th *Thread, fn *ssa.Function, args []Value, env []Value, cont func(Value), site ssa.Instruction) *frame {
+	// Always go through Package.Build (a sync.Once): fn.Blocks is assigned while another worker's builder is still
+	// lifting and optimising the function, so "Blocks != nil" does not mean "built" (a half-built body has nil
+	// instructions in it - seen once as an engine panic from a cold build cache).
+	if fn.Pkg != nil {
+		fn.Pkg.Build()
+	}
 	if fn.Blocks == nil {
-		if fn.Pkg != nil {
-			fn.Pkg.Build()
-		}
-		if fn.Blocks == nil {
-			panic(w.unsupported("call to function without body: %s", fn.String()))
-		}
+		panic(w.unsupported("call to function without body: %s", fn.String()))
 	}
 	if len(th.frames) > w.eng.cfg.MaxDepth {
 		panic(pathEnd{kind: "budget", msg: "max call depth in " + fn.String()})
@@ -297,8 +298,8 @@ interpret:
 		cont(zeroResults(fn.Signature))
 		return
 	}
-	if fn.Blocks == nil && fn.Pkg != nil {
-		fn.Pkg.Build()
+	if fn.Pkg != nil {
+		fn.Pkg.Build() // see pushFrame: never look at fn.Blocks before the package's build has completed
 	}
 	if fn.Blocks == nil {
 		if h := w.eng.externalFallback(w, fn, args); h != nil {
